@@ -41,6 +41,8 @@ def verify_functions(rep: core.Report, module_names, quals, classes, prop=None, 
             rep.functions[q] = {"file": c.file, "status": "undecided", "reason": str(e)}
             continue
         except Exception as e:  # the sidecar contract refers to names/shapes the current source no longer has
+            if os.environ.get("VERIF_TRACE"):
+                traceback.print_exc()
             rep.undecided.append(f"{q}: contract could not be evaluated against the current source ({type(e).__name__}: {e})")
             rep.functions[q] = {"file": c.file, "status": "undecided", "reason": f"{type(e).__name__}: {e}"}
             continue
